@@ -92,7 +92,7 @@ def run_session(blocks, addr):
     return calls, conn.sent, err, conn.closed
 
 
-def scenario(blocks):
+def scenario(blocks, same_peer=False):
     """fresh simulator; session 1 receives `blocks` then end-of-stream; session 2 reads everything back"""
     from cpppo.server.enip import logix, device, main
     device.lookup_reset(); logix.setup_reset()
@@ -101,11 +101,15 @@ def scenario(blocks):
     try:
         calls, replies, err, closed = run_session(blocks, ADDR1)
         rb_calls, rb_replies, rb_err, _ = run_session(readback_frames(), ADDR2)
+        # ... and a new session from the very peer address (host, port) whose session has just ended, possibly inside a frame
+        rs_replies, rs_err = rb_replies, None
+        if same_peer:
+            _, rs_replies, rs_err, _ = run_session(readback_frames(), ADDR1)
         image = im.image()
     finally:
         im.close()
-    return dict(calls=calls, replies=replies, err=err, closed=closed, readback=rb_replies, rb_ok=(rb_err is None and len(rb_replies) == 3),
-                image=image)
+    return dict(calls=calls, replies=replies, err=err, closed=closed, readback=rb_replies,
+                rb_ok=(rb_err is None and len(rb_replies) == 3 and rs_err is None and rs_replies == rb_replies), image=image)
 
 
 def model_frames(plans):
@@ -275,7 +279,7 @@ def run(ctx):
             k = len(mf)
             if k != sum(1 for e in ends if e <= n):
                 raise core.HarnessError('framing model disagrees with the generator at truncation %d' % n)
-            r = scenario(blocks)
+            r = scenario(blocks, same_peer=(n % 4 == 1 or n in ends))
             b = base[k]
             w = dict(stream=which, truncated_at=n, complete_frames=k, frame_ends=ends, replies=[x.hex() for x in r['replies']],
                      error=r['err'], processed=[c.hex() for c in r['calls']])
@@ -295,6 +299,31 @@ def run(ctx):
                 first = first or dict(part='end-of-stream handling', unfinished=mrest.hex(), **w)
             else:
                 nontriv += 1
+
+    # ---- frames whose declared length needs all 16 bits of the field (>= 0x8000), followed by further frames
+    nbig = 0
+    for n in ((8100, 8190, 16300) if ctx.thorough else (8190,)):
+        big = E.build_unconnected(L.py_req(('writef', ('sym', 'T', 0), 196, n, 0, [('i', k) for k in range(n)])), ctx=b'big')
+        frames = [register_frame(), big, E.build_unconnected(L.py_req(('readf', ('sym', 'T', None), 4, 0)), ctx=b'r1', wrap=True)]
+        stream = b''.join(frames)
+        cuts = [None, 28 + 3, 28 + 24, 28 + 32767 + 24, len(stream) - len(frames[2]) - 1, len(stream) - len(frames[2]) + 5]
+        for cut in (cuts if ctx.thorough else cuts[:1] + [rng.choice(cuts[1:])]):
+            blocks = [stream] if cut is None else [stream[:cut], stream[cut:]]
+            mf, mrest = frames, b''        # (the extracted list-based model needs a minute for 33 kB; the generator's own framing stands in)
+            r = scenario(blocks)
+            nrun += 1; nbig += 1
+            w = dict(frame_lengths=[len(f) for f in frames], declared_length=len(big) - 24, cut=cut, processed=[len(c) for c in r['calls']],
+                     replies=[x.hex()[:96] for x in r['replies']], error=r['err'])
+            if mf != frames or mrest != b'':
+                raise core.HarnessError('framing model disagrees with the generator on the big frame')
+            if r['calls'] != mf:
+                ndis += 1
+                first = first or dict(part='server framing, declared length >= 0x8000', **w)
+            if len(r['replies']) != 3 or r['err'] or not r['rb_ok'] or r['replies'][2][40:44] != bytes.fromhex('d2000000'):
+                bad(w, 'a frame with a declared length of %d bytes did not consume exactly 24 + length bytes: the frames after it were not answered' % (len(big) - 24))
+            else:
+                nontriv += 1
+    cov['big_frame_runs'] = nbig
 
     # ---- client side
     ncl = 0
